@@ -4,6 +4,7 @@ def b_Lanelet_create_node : CR.SrcW.Builder where
   kind := .node
   tag := "lanelet"
   xsd := "lanelet"
+  path := []
   parent := ""
   attrs := [("id", (.str "_.lanelet_id"))]
   gattrs := []
@@ -61,7 +62,8 @@ def b_Lanelet_create_node_userBidirectional : CR.SrcW.Builder where
   key := "LaneletXMLNode.create_node/userBidirectional"
   kind := .node
   tag := "userBidirectional"
-  xsd := ""
+  xsd := "lanelet"
+  path := ["userBidirectional"]
   parent := "LaneletXMLNode.create_node"
   attrs := []
   gattrs := []
@@ -74,7 +76,8 @@ def b_Lanelet_create_node_userOneWay : CR.SrcW.Builder where
   key := "LaneletXMLNode.create_node/userOneWay"
   kind := .node
   tag := "userOneWay"
-  xsd := ""
+  xsd := "lanelet"
+  path := ["userOneWay"]
   parent := "LaneletXMLNode.create_node"
   attrs := []
   gattrs := []
@@ -87,7 +90,8 @@ def b_Lanelet_create_node_laneletType_n2 : CR.SrcW.Builder where
   key := "LaneletXMLNode.create_node/laneletType#2"
   kind := .node
   tag := "laneletType"
-  xsd := ""
+  xsd := "lanelet"
+  path := ["laneletType"]
   parent := "LaneletXMLNode.create_node"
   attrs := []
   gattrs := []
@@ -100,7 +104,8 @@ def b_Lanelet_create_node_laneletType : CR.SrcW.Builder where
   key := "LaneletXMLNode.create_node/laneletType"
   kind := .node
   tag := "laneletType"
-  xsd := ""
+  xsd := "lanelet"
+  path := ["laneletType"]
   parent := "LaneletXMLNode.create_node"
   attrs := []
   gattrs := []
@@ -113,10 +118,11 @@ def b_Lanelet_create_node_adjacentRight : CR.SrcW.Builder where
   key := "LaneletXMLNode.create_node/adjacentRight"
   kind := .node
   tag := "adjacentRight"
-  xsd := ""
+  xsd := "lanelet"
+  path := ["adjacentRight"]
   parent := "LaneletXMLNode.create_node"
-  attrs := []
-  gattrs := [("ref", (.str "_.adj_right")), ("drivingDir", (.cond (.const "same") (.const "opposite")))]
+  attrs := [("ref", (.str "_.adj_right")), ("drivingDir", (.cond (.const "same") (.const "opposite")))]
+  gattrs := []
   text := none
   atoms := []
   body :=
@@ -126,10 +132,11 @@ def b_Lanelet_create_node_adjacentLeft : CR.SrcW.Builder where
   key := "LaneletXMLNode.create_node/adjacentLeft"
   kind := .node
   tag := "adjacentLeft"
-  xsd := ""
+  xsd := "lanelet"
+  path := ["adjacentLeft"]
   parent := "LaneletXMLNode.create_node"
-  attrs := []
-  gattrs := [("ref", (.str "_.adj_left")), ("drivingDir", (.cond (.const "same") (.const "opposite")))]
+  attrs := [("ref", (.str "_.adj_left")), ("drivingDir", (.cond (.const "same") (.const "opposite")))]
+  gattrs := []
   text := none
   atoms := []
   body :=
@@ -139,10 +146,11 @@ def b_Lanelet_create_node_successor : CR.SrcW.Builder where
   key := "LaneletXMLNode.create_node/successor"
   kind := .node
   tag := "successor"
-  xsd := ""
+  xsd := "lanelet"
+  path := ["successor"]
   parent := "LaneletXMLNode.create_node"
-  attrs := []
-  gattrs := [("ref", (.str "it1"))]
+  attrs := [("ref", (.str "it1"))]
+  gattrs := []
   text := none
   atoms := []
   body :=
@@ -152,10 +160,11 @@ def b_Lanelet_create_node_predecessor : CR.SrcW.Builder where
   key := "LaneletXMLNode.create_node/predecessor"
   kind := .node
   tag := "predecessor"
-  xsd := ""
+  xsd := "lanelet"
+  path := ["predecessor"]
   parent := "LaneletXMLNode.create_node"
-  attrs := []
-  gattrs := [("ref", (.str "it1"))]
+  attrs := [("ref", (.str "it1"))]
+  gattrs := []
   text := none
   atoms := []
   body :=
@@ -165,7 +174,8 @@ def b_Lanelet_create_node_rightBound : CR.SrcW.Builder where
   key := "LaneletXMLNode.create_node/rightBound"
   kind := .node
   tag := "rightBound"
-  xsd := ""
+  xsd := "lanelet"
+  path := ["rightBound"]
   parent := "LaneletXMLNode.create_node"
   attrs := []
   gattrs := []
@@ -183,7 +193,8 @@ def b_Lanelet_create_node_rightBound_lineMarking : CR.SrcW.Builder where
   key := "LaneletXMLNode.create_node/rightBound/lineMarking"
   kind := .node
   tag := "lineMarking"
-  xsd := ""
+  xsd := "lanelet"
+  path := ["rightBound", "lineMarking"]
   parent := "LaneletXMLNode.create_node/rightBound"
   attrs := []
   gattrs := []
@@ -196,7 +207,8 @@ def b_Lanelet_create_node_leftBound : CR.SrcW.Builder where
   key := "LaneletXMLNode.create_node/leftBound"
   kind := .node
   tag := "leftBound"
-  xsd := ""
+  xsd := "lanelet"
+  path := ["leftBound"]
   parent := "LaneletXMLNode.create_node"
   attrs := []
   gattrs := []
@@ -214,7 +226,8 @@ def b_Lanelet_create_node_leftBound_lineMarking : CR.SrcW.Builder where
   key := "LaneletXMLNode.create_node/leftBound/lineMarking"
   kind := .node
   tag := "lineMarking"
-  xsd := ""
+  xsd := "lanelet"
+  path := ["leftBound", "lineMarking"]
   parent := "LaneletXMLNode.create_node/leftBound"
   attrs := []
   gattrs := []
